@@ -1,9 +1,15 @@
 (* Extraction of the executable model: ExtrOcamlBasic only, no Extract Constant of our own. *)
-From CC Require Import Policy Structure Keys KeysMachine Wire.
+From CC Require Import Policy Structure Keys KeysMachine Wire WireSer WireAlloc RevIter MacStream.
 Require Extraction.
 Require Import ExtrOcamlBasic.
+Definition alt_sizes := {| scalar_len := 32; point_len := 33; ek_len := 1184; dk_len := 2400; ct_len := 1088 |}.
 Extraction "../ocaml/model.ml" parse parse_dnf empty_structure add_anarchy add_hierarchy del_dimension add_attribute
   del_attribute disable_attribute rename_attribute omega complementary_rights associated_rights right_bytes
   update_msk mk_mpk usk_rights enc_rights rekey prune keygen refresh encaps_rights decaps recaps full_decaps
   step run init fixed pinned.
-Extraction "../ocaml/wire.ml" default_sizes r_msk r_mpk r_usk r_xenc r_structure whole.
+Extraction "../ocaml/wire.ml" default_sizes alt_sizes r_msk r_mpk r_usk r_xenc r_structure WireSer.r_header r_cleartext whole
+  wr_msk wr_mpk wr_usk wr_xenc wr_structure wr_header wr_cleartext
+  len_msk len_mpk len_usk len_xenc len_structure len_header len_cleartext
+  ax_msk ax_mpk ax_usk ax_xenc ax_structure ax_header
+  revisions_fuel maxlen
+  mac_stream framing reframing_of mk_body mk_secret ubody_eqb.
